@@ -212,7 +212,14 @@ func c16Refail(tier string, seed int64, idx int, c c16Case, res *core.Result) {
 	default:
 		// "d" is dialled on demand; then its connection faults while the serve loop is held
 		send("d", 1)
-		if !arrives(func() *c16Peer { mu.Lock(); defer mu.Unlock(); if len(dialled) > 0 { return dialled[0] }; return nil }, 0, "first envelope to the dialled peer") {
+		if !arrives(func() *c16Peer {
+			mu.Lock()
+			defer mu.Unlock()
+			if len(dialled) > 0 {
+				return dialled[0]
+			}
+			return nil
+		}, 0, "first envelope to the dialled peer") {
 			break
 		}
 		mu.Lock()
